@@ -190,7 +190,8 @@ class MultiNestOptimizer(Optimizer):
         self.warning('Store the multinest results')
         NEST_out = {'solutions': {}}
         data = np.loadtxt(os.path.join(self.dir_multinest,
-                                       '{}.txt'.format(self.multinest_prefix)))
+                                       '{}.txt'.format(self.multinest_prefix)),
+                          ndmin=2)
 
         NEST_analyzer = pymultinest.Analyzer(n_params=len(
             self.fitting_parameters), outputfiles_basename=os.path.join(self.dir_multinest, self.multinest_prefix))
@@ -277,7 +278,6 @@ class MultiNestOptimizer(Optimizer):
             modes_weights.append(chains_weights[0])
             modes = [0]
 
-        modes_weights = np.asarray(modes_weights)
         for nmode in range(len(modes)):
             self.debug('Nmode: {}'.format(nmode))
 
